@@ -95,6 +95,12 @@ def run(run: core.Run, tier: str):
       "call) compared with a fresh twin; tensors of rank 0..5 with unit dimensions, tf.Variable inputs; numeric options "
       "as numpy scalars / 0-d arrays / tf.constant / tf.Variable; set_internal_sigmoid modes in both orders, "
       "learning phase 1 without the flag, channels_first; "
+      "round 3: histories that CHANGE the option a __call__ reads — binary / ternary / stochastic_* x 24 alpha histories "
+      "(_set_trainable_parameter, assignments in both directions, deepcopy / from_config afterwards, the real layer route "
+      "for QDense / QConv1D / QConv2D / QDepthwiseConv2D / QSeparableConv2D incl. shared and string-given quantizers) tied "
+      "to the Lean OBJECT model (driver op binter_hist), judged by the surrogate of the alpha now in force and against a "
+      "fresh twin; the sampling routes after the hook; quantized_bits / quantized_linear alpha None -> hook; every other "
+      "option of every class assigned after construction with another value (attr_history); "
       "non-trivial = distinct (configuration, input)")
   F32 = lambda v: F(float(np.float32(v)))
   lines, meta = [], []
@@ -563,7 +569,7 @@ def run(run: core.Run, tier: str):
       kw = dict(bits=bits, symmetric=sym, use_stochastic_rounding=stoch)
       if real:
         kw["use_real_" + opn] = True
-      kw.update({k: v for k, v in o.items() if k in ("use_stochastic_rounding",)})
+      kw.update({k: v for k, v in o.items() if k in ("use_stochastic_rounding", "bits", "symmetric", "use_real_" + opn)})
       return getattr(Q, cls)(**kw)
 
     def extra(xs, y1):
@@ -1033,8 +1039,6 @@ def run(run: core.Run, tier: str):
       for hi_, (hname, a0, steps, route) in enumerate(bt_histories):
         if tier == "quick" and ckw and hi_ % 3 != ci_ % 3:
           continue                                   # option variants of a class: a third of the histories each
-        if cls == "stochastic_ternary" and ckw == {} and a0 is not None and not isinstance(a0, str):
-          pass
         kw0 = dict(ckw, alpha=a0)
         label = "%s(%s) [history %s%s]" % (cls, ",".join("%s=%s" % kv for kv in kw0.items()), hname,
                                            "" if route == "same" else ", then " + route)
@@ -1174,6 +1178,65 @@ def run(run: core.Run, tier: str):
                            "value_grad_after_history": [float(ys.ravel()[i]), float(gs.ravel()[i])],
                            "value_grad_fresh_twin": [float(ys2.ravel()[i]), float(gs2.ravel()[i])]}, mirrored=False)
             run.count("stream_alpha_history_fixed_point", x2.size)
+
+    # ---- stream `attr_history`: the same for EVERY option a `__call__` of the C06 model reads from `self` to choose the
+    # surrogate / the clip mask / the mixing form: the object is constructed with ANOTHER value of the option, used
+    # once, the attribute is assigned, and the next call must be the (value, gradient) of the final configuration
+    # (model tie + clauses of that configuration) and bit-identical to a fresh twin.  An option captured at
+    # construction (hoisted from `__call__` into `__init__`) fails here whichever option it is.
+    attr_cases = []
+    for ste, qf in ((True, F(1)), (False, HALF)):
+      attr_cases += [
+          (S_relu(4, 1, 2.0, True, None, ste, qf), dict(negative_slope=0.25), "negative_slope"),
+          (S_relu(4, 1, 0.0, True, None, ste, qf), dict(negative_slope=0.25), "negative_slope"),
+          # … in each of the three x_u branches (quantized clip | relu_upper_bound | unbounded)
+          (S_relu(4, 1, 2.0, False, None, ste, qf), dict(negative_slope=0.25), "negative_slope"),
+          (S_relu(4, 1, 0.0, False, None, ste, qf), dict(negative_slope=0.5), "negative_slope"),
+          (S_relu(4, 1, 4.0, False, 1.5, ste, qf), dict(negative_slope=0.25), "negative_slope"),
+          (S_relu(4, 1, 0.25, False, 1.5, ste, qf), dict(negative_slope=0.0), "negative_slope"),
+          (S_relu(4, 2, 0.5, False, 3.0, ste, qf), dict(relu_upper_bound=1.5), "relu_upper_bound"),
+          (S_relu(4, 1, 0.5, False, 1.5, ste, qf), dict(relu_upper_bound=None), "relu_upper_bound"),
+          (S_relu(4, 1, 0.5, False, None, ste, qf), dict(relu_upper_bound=1.5), "relu_upper_bound"),
+          (S_relu(4, 1, 0.25, False, None, ste, qf), dict(is_quantized_clip=True), "is_quantized_clip"),
+          (S_relu(4, 1, 0.25, True, None, ste, qf), dict(is_quantized_clip=False), "is_quantized_clip"),
+          (S_relu(5, 2, 0.25, True, None, ste, qf), dict(bits=4, integer=1), "bits,integer"),
+          (S_relu_po2(4, 2.0, 2.0, ste, qf), dict(negative_slope=0.25), "negative_slope"),
+          (S_relu_po2(4, 2.0, 0.0, ste, qf), dict(negative_slope=4.0), "negative_slope"),
+          (S_relu_po2(4, None, 0.25, ste, qf), dict(max_value=2.0), "max_value"),
+          (S_po2(4, None, ste, qf), dict(max_value=2.0), "max_value"),
+          (S_bits(4, 1, 0, 1, None, ste, qf), dict(alpha=0.5), "alpha"),
+          (S_bits(4, 1, 0, 1, 0.5, ste, qf), dict(alpha=None), "alpha"),
+          (S_bits(4, 1, 0, 0, None, ste, qf), dict(keep_negative=1), "keep_negative"),
+          (S_bits(5, 2, 1, 1, None, ste, qf), dict(bits=4, integer=1, symmetric=0), "bits,integer,symmetric"),
+          (S_bits(4, 1, 0, 1, None, ste, qf), dict(use_ste=not ste), "use_ste"),
+          (S_linear(4, 1, 0, 1, None, qf), dict(symmetric=1), "symmetric"),
+          (S_linear(4, 1, 1, 1, None, qf), dict(symmetric=0), "symmetric")]
+    attr_cases += [(S_act("tanh", 4, 0, True), dict(use_real_tanh=False), "use_real_tanh"),
+                   (S_act("tanh", 4, 0, False), dict(use_real_tanh=True), "use_real_tanh"),
+                   (S_act("sigmoid", 4, 1, True), dict(use_real_sigmoid=False), "use_real_sigmoid"),
+                   (S_act("sigmoid", 4, 1, False), dict(symmetric=0), "symmetric"),
+                   (S_act("tanh", 3, 1, False), dict(bits=5, symmetric=0), "bits,symmetric")]
+    for spec, init_over, what in attr_cases:
+      with guard(spec, "attr_history:" + what):
+        xs = spec_pts(spec, 24)
+        q = spec["make"](**init_over)
+        grad_of(q, short_dyadics(rng, 12, -2, 2).reshape(2, 3, 2))
+        final = spec["make"]()
+        for a in init_over:
+          setattr(q, a, getattr(final, a))
+        ys, gs = measure(q, xs)
+        y1 = None if spec["one"] is None else value_of(spec["make"](**spec["one"]), xs)
+        emit(spec, xs, ys, gs, y1, " [history: constructed with %s, used on a 2x3x2 tensor, then %s assigned]" % (
+            ",".join("%s=%s" % kv for kv in init_over.items()), what), keyx=dict(stream="attr_history"),
+             stream="attr_history")
+        ys2, gs2 = measure(final, xs)
+        if not (np.array_equal(ys, ys2) and np.array_equal(gs, gs2)):
+          i = int(np.argmax((ys != ys2) | (gs != gs2)))
+          run.violate("history_twin", dict(spec["key"], variant="assign:" + what),
+                      {"config": spec["label"], "history": "constructed with %s, then assigned" % init_over, "x": float(xs[i]),
+                       "value_grad_after_history": [float(ys[i]), float(gs[i])],
+                       "value_grad_fresh_twin": [float(ys2[i]), float(gs2[i])]}, mirrored=False)
+        run.count("attr_history_" + spec["cls"])
 
     # ---- stream `rank`: tensors of rank 0..5 (dimensions of size 1 included); numpy-fed tf.Variable input
     shapes = [(), (24,), (4, 6), (2, 3, 4), (2, 1, 3, 4), (1, 2, 3, 2, 2), (1,), (1, 1), (24, 1)]
